@@ -154,6 +154,10 @@ def run_prop(chk: Check, prop: str) -> int:
     for c in txhist.pattern_cases(None if chk.thorough else chk.rng, 3000):
         cases.append(("delete-match", c))
         npat += 1
+    nctl = 0
+    for c in txhist.control_cases():
+        cases.append(("control-state", c))
+        nctl += 1
     for i in range(n):
         cases.append((f"gen:{i}", txhist.gen_case(chk.rng, i)))
     nexh = 0
@@ -208,6 +212,16 @@ def run_prop(chk: Check, prop: str) -> int:
     if proof is not None:
         chk.proof_broken(proof, found > 0)
     chk.coverage.update({
+        "control_state_cases": nctl,
+        "control_state_rule": "cache.disable(...) / cache.enable(...) are events of the programs (12% of the blocks are preceded by one, 2% of the "
+                              "events inside a block are one; sets: a bulk command alone - delete_many, set_many -, a single command alone, both, "
+                              "delete_match, reads), applied to the transactional cache and to the direct copy alike; plus the enumerated sub-space "
+                              "15 control states x {set before the block, inside before the writes, inside after the writes right before the commit, "
+                              "set before and lifted inside} x 2 write scripts (single-key writes / bulk + pattern writes + a conditional set) x 2 "
+                              "initial stores x 3 modes (720 cases, both tiers, exhaustive over this space; every 5th left by an exception). A command "
+                              "disabled when issued must change nothing and answer its default; the commit must apply every write that was accepted, "
+                              "whatever is disabled by then (judged by the ordinary C03 oracle: store after commit = the direct copy, which ran the "
+                              "same commands under the same control state)",
         "delete_match_cases": npat,
         "delete_match_rule": "pattern commands inside a transaction are commands of the histories like any other (delete_match 7%, scan and get_match 2.5% "
                              "each of the generated commands, half of the patterns repeating one used earlier in the same program; patterns over the names "
@@ -270,7 +284,7 @@ def run_prop(chk: Check, prop: str) -> int:
                        "BaseException, cancellation - is judged as a rollback (store = store before the segment, no lock key left), and the "
                        "exception that comes out of the block must be the one that went in (a swallowed or replaced one is reported)",
         "trusted_base": TRUSTED,
-        "partial": "one task and one Memory backend; a context object shared between tasks is not exercised; non-dyadic TTLs, more than 3 keys, blocks longer than 14 commands, the overlay's "
+        "partial": "one task and one Memory backend (so control state per PREFIX - several backends in one transaction - is not exercised; disable of set_lock / unlock, which the lock modes call on the backend object directly, is not either); a context object shared between tasks is not exercised; non-dyadic TTLs, more than 3 keys, blocks longer than 14 commands, the overlay's "
                    "own capacity of 1000 entries, patterns that reach the reserved ':'-prefixed lock keys (excluded by the properties' proviso), pattern "
                    "metacharacters other than '*' (C13's subject) are not exercised",
     })
